@@ -180,6 +180,22 @@ impl BlockIter {
     }
 }
 
+#[cfg(sstable_verif)]
+impl BlockIter {
+    /// Read-only fingerprint of the iterator state:
+    /// (offset, restarts_off, current_entry_offset, current_restart_ix, key, val_offset).
+    pub fn verif_state(&self) -> (usize, usize, usize, usize, Vec<u8>, usize) {
+        (
+            self.offset,
+            self.restarts_off,
+            self.current_entry_offset,
+            self.current_restart_ix,
+            self.key.clone(),
+            self.val_offset,
+        )
+    }
+}
+
 impl SSIterator for BlockIter {
     fn advance(&mut self) -> bool {
         if self.offset >= self.restarts_off {
